@@ -328,8 +328,10 @@ def check_thread_independence(rec):
 
 def check_first_call(rec):
     from pycel.excelcompiler import ExcelCompiler
-    spec = {'sheets': {'S': {'A1': 1, 'B1': 2, 'A2': '=SUM(A1:B1)',
-                             'B2': '=A2*2', 'C2': '=B2+A1'}}}
+    # (D2 does not depend on A1: trim_graph has to calculate and freeze it)
+    spec = {'sheets': {'S': {'A1': 1, 'B1': 2, 'D1': 4, 'A2': '=SUM(A1:B1)',
+                             'B2': '=A2*2', 'D2': '=D1*10',
+                             'C2': '=B2+A1+D2'}}}
     for iterative in (False, True):
         with TempDir() as tmp:
             base = compile_spec(spec, cycles=True if iterative else None,
@@ -340,7 +342,7 @@ def check_first_call(rec):
             write_xlsx_with_results(
                 dict(spec, iterate=dict(count=20, delta=0.001)
                      if iterative else None),
-                {'S': {'A2': 3, 'B2': 6, 'C2': 7}}, f'{tmp}/book.xlsx')
+                {'S': {'A2': 3, 'B2': 6, 'D2': 40, 'C2': 47}}, f'{tmp}/book.xlsx')
             for variant in ('fresh', 'warm-same'):
                 prepared = compile_spec(spec, cycles=True if iterative else None)
                 prepared2 = compile_spec(spec, cycles=True if iterative else None)
